@@ -239,7 +239,9 @@ def write(detector, spec, salt=0, spec_odd=None):
             v = value_for("pixel", st, shape, salt) * mul
             dt = opt.get("dtype", "float64")
             if opt.get("acc"):
-                detector.pixel.array = (np.asarray(detector.pixel.array, dtype="float64") + v).astype(dt)
+                old = container_value(detector.pixel)         # robust against an uninitialised pixel bucket
+                base = np.zeros(shape) if old is None else np.asarray(old, dtype="float64")
+                detector.pixel.array = (base + v).astype(dt)
             else:
                 detector.pixel.array = v.astype(dt)
         elif b == "signal":
